@@ -122,7 +122,7 @@ pub(crate) fn render_zsh(
     let mut res = String::new();
 
     if items.is_empty() && ops.is_empty() {
-        return Ok(format!("compadd -- {}\n", full_lit));
+        return Ok(format!("compadd -- {}\n", Shell(full_lit)));
     }
 
     for op in ops {
